@@ -17,7 +17,7 @@ func description(b []byte) ([]byte, error) {
 		return b, err
 	}
 
-	b = bytes.TrimLeft(b, "\r\n")
+	b = trimLeadingBlankLines(b)
 	b = bytes.TrimRight(b, "\r\n\t ")
 
 	lines := bytes.Split(b, []byte{'\n'})
@@ -55,17 +55,43 @@ func descriptionRemoveParentheses(b []byte) ([]byte, error) {
 	return b, nil
 }
 
+// trimLeadingBlankLines removes the leading lines which are empty or consist of
+// whitespaces only. The indentation of the first line with a text is kept.
+func trimLeadingBlankLines(b []byte) []byte {
+	for i, c := range b {
+		switch c {
+		case '\n':
+			return trimLeadingBlankLines(b[i+1:])
+		case ' ', '\t':
+			continue
+		default:
+			return b
+		}
+	}
+	return nil
+}
+
+func isBlankLine(b []byte) bool {
+	return len(bytes.Trim(b, " \t")) == 0
+}
+
+// longestWhitespacePrefix returns the indentation common to all lines with a
+// text. Lines without a text (empty or whitespaces only) have no indentation.
 func longestWhitespacePrefix(bb [][]byte) []byte {
 	empty := make([]byte, 0)
 
-	if len(bb) == 0 {
+	first := 0
+	for first < len(bb) && isBlankLine(bb[first]) {
+		first++
+	}
+	if first == len(bb) {
 		return empty
 	}
 
 	prefix := empty
-	for i := 0; i < len(bb[0]); i++ {
-		if bb[0][i] != '\t' && bb[0][i] != ' ' || i == len(bb[0])-1 {
-			prefix = bb[0][:i]
+	for i := 0; i < len(bb[first]); i++ {
+		if bb[first][i] != '\t' && bb[first][i] != ' ' {
+			prefix = bb[first][:i]
 			break
 		}
 	}
@@ -74,8 +100,8 @@ func longestWhitespacePrefix(bb [][]byte) []byte {
 		return empty
 	}
 
-	for i := 1; i < len(bb); i++ {
-		if len(bb[i]) != 0 {
+	for i := first + 1; i < len(bb); i++ {
+		if !isBlankLine(bb[i]) {
 			for !bytes.HasPrefix(bb[i], prefix) {
 				prefix = prefix[:len(prefix)-1]
 				if len(prefix) == 0 {
